@@ -44,7 +44,7 @@ RULE = ('one evaluation = one explored path (identity-equality pattern) of a scr
         'distinct = distinct (script, operation, decision trace) or distinct inputs; non-trivial = at least one re-wrapped node or a binder')
 EXPLANATION = ('identities are z3 integers; Term.__eq__ and the _id-based caches/short-cuts branch on them; per path the real result is compared with the reference; '
                'denotation of substitution/beta results is decided valid by z3 (uninterpreted sorts + arrays, finite-model fallback)')
-BUDGET_S = {'quick': 240, 'thorough': 1500}
+BUDGET_S = {'quick': 240, 'thorough': 900}
 
 
 def bounds(tier):
